@@ -446,15 +446,24 @@ Section Run.
     | TBox t' => ptr_fm (impl_of t')
     | TRes t' => result_fm (impl_of t')
     | TUnitR c =>
-        (* a unit struct only gets from_word; a declared from_none is not emitted *)
-        mkFm None None None (Some (Ok (VStruct []))) None None None None None None
+        (* a unit struct gets from_word, and its declared from_none *)
+        mkFm None None
+             (match ci_from_none c with
+              | Some f => Some (match run_fn f VUnit with Ok (VSome v) => Some v | _ => None end)
+              | None => None
+              end)
+             (Some (Ok (VStruct []))) None None None None None None
     | TNewtypeR c inner =>
         (* fn from_meta(item) = FromMeta::from_meta(item).map_err(with_span(item)).map(R); a container-level
            map / and_then is accepted by the derive but not emitted for a newtype *)
         mkFm None
              (Some (fun m => map_ok (fun v => VStruct [("0", v)])
                                (map_err (with_span (i_span (ninfo m))) (from_meta (impl_of inner) m))))
-             None None None None None None None None
+             (match ci_from_none c with
+              | Some f => Some (match run_fn f VUnit with Ok (VSome v) => Some v | _ => None end)
+              | None => None
+              end)
+             None None None None None None None
     | TStructR c fields =>
         let convs := map (fun ft => impl_of (snd ft)) fields in
         mkFm None None
